@@ -423,3 +423,30 @@ Qed.
 Lemma read_fragments_all_more frs : forall off ao acc,
   read_fragments (map (fun f => (f, true)) frs) off ao acc = None.
 Proof. induction frs as [|f r IH]; intros; cbn [map read_fragments]; [reflexivity|apply IH]. Qed.
+
+(* ---- negotiation: the size the target was asked for (and granted) is the size the planners use *)
+Lemma land_small a m : 0 <= a <= m -> (m = 65535 \/ m = 511) -> Z.land a m = a.
+Proof.
+  intros Ha [->| ->].
+  - change 65535 with (Z.ones 16). rewrite Z.land_ones by lia. apply Z.mod_small. change (2 ^ 16) with 65536. lia.
+  - change 511 with (Z.ones 9). rewrite Z.land_ones by lia. apply Z.mod_small. change (2 ^ 9) with 512. lia.
+Qed.
+
+Theorem negotiate_size_agrees st al astd :
+  0 <= fo_csize st <= (if fo_ext st then 65535 else 511) ->
+  let '(attempts, st', opened) := negotiate st al astd in
+  opened = true ->
+  (* the last attempt is the one that succeeded: its size field is the driver's connection size *)
+  snd (last attempts (false, 0)) = fo_csize st' /\ fst (last attempts (false, 0)) = fo_ext st'
+  (* a standard Forward Open after a refused Large one asks for 500 *)
+  /\ (fo_ext st = true -> al = false -> attempts = [(true, fo_csize st); (false, 500)] /\ fo_csize st' = 500).
+Proof.
+  intros Hr. unfold negotiate, fo_size_field. destruct (fo_ext st) eqn:E.
+  - assert (L : Z.land (fo_csize st) 65535 = fo_csize st) by (apply land_small; [lia|auto]).
+    rewrite L. destruct al.
+    + intros _. cbn [last snd fst]. rewrite E. repeat split; congruence.
+    + intros _. cbn [last snd fst fo_ext fo_csize].
+      change (Z.land 500 511) with 500. repeat split; reflexivity.
+  - assert (L : Z.land (fo_csize st) 511 = fo_csize st) by (apply land_small; [lia|auto]).
+    rewrite L. intros _. cbn [last snd fst]. rewrite E. repeat split; congruence.
+Qed.
